@@ -150,6 +150,15 @@ CHECKS["C07"] = dict(
     ref="DESIGN.md 4/C07",
     note=NOTE_COMMON + "Arc re-read uses the argument recorder (that those arguments give back the same centre/sweep is C05). Outside: the 12-digit / 6-digit (%G) formatting itself.")
 
+CHECKS["C08"] = dict(
+    text="Real bbox code with all control points symbolic: Move/Line/Close exact; QuadraticBezier.bbox contains B(t) for ALL t in [0,1] and each side is attained at an "
+         "end point or the stationary point; CubicBezier._real_minmax contains B(t) for all t per branch (nlsat; branches that stay unknown within the budget are "
+         "listed as inconclusive); zero-sweep Arc box ordered and containing the chord; Path/Subpath (transformed and not)/Group/Use boxes contain every point of "
+         "every member, stay within the defining-point hull, equal the union of member boxes, and are grown by half the implicit (sqrt|det| scaled) or plain stroke "
+         "width exactly when a stroke is painted.",
+    ref="DESIGN.md 4/C08",
+    note=NOTE_COMMON + "Outside: Arc.bbox for non-zero sweep (atan/tan candidate angles, theta/delta), tightness of cubic boxes.")
+
 NOT_APPLICABLE = {
 }
 
